@@ -33,17 +33,19 @@ def run(ctx):
         raise vf.Infra("the code no longer follows Control.tla (%d replayed paths differ only in identifiers / table "
                        "contents, e.g. step %s fields %s) although no caller received a wrong or no answer: "
                        "update the specification" % (tot["diverged"], div[0].get("a"), div[0].get("fields")))
-    ideal, big = mdl["ideal"], mdl["r_big"]
+    ideals, bigs = mdl["ideals"], mdl["r_bigs"]
     mid = rp["paths"][len(rp["paths"]) // 2]
     ctx.evidence("model_checking",
-                 assumptions=["bounded instance: star A,B - T - X,Y, askers A, B and the transit T itself, "
-                              "%d requests in total (max %d per asker, %d cancellation) checked exhaustively; "
-                              "%d requests replayed on real agents" % (mdl["big"][0], mdl["big"][1], mdl["big"][2], mdl["small"][0]),
+                 assumptions=["bounded instances (MaxReq, MaxPer, cancellations, broken target connections): star A,B - T - X,Y, "
+                              "askers A, B and the transit T itself; checked exhaustively: %s; every transition replayed on "
+                              "real agents: %s and %s" % (mdl["bigs"], mdl["small"], mdl["downinst"]),
                               "one transit between asker and target (longer chains repeat the transit's step)",
                               "status requests only (the dispatch code is the same for every control type)",
-                              "frames of one link direction are processed in order (in-memory links, one frame released at a time)"],
-                 states=big.distinct, transitions=big.generated,
-                 replayed_states=ideal.distinct, replayed_transitions=rp["edges"],
+                              "frames of one link direction are processed in order (in-memory links, one frame released at a time)",
+                              "after a target's connection broke, a transit may keep waiting or fail the relayed request with an "
+                              "error response under the asker's id; only what callers receive is judged there"],
+                 states=sum(r.distinct for r in bigs + ideals), transitions=sum(r.generated for r in bigs + ideals),
+                 replayed_states=sum(r.distinct for r in ideals), replayed_transitions=rp["edges"],
                  traces_validated_against_impl=tot["paths"] + len(rp["scenarios"]),
                  exhaustive=True,
                  replayed_paths=tot["paths"], replayed_steps=tot["steps"],
